@@ -537,6 +537,10 @@ def core_canon(mods, maxpay, nkeys=1):
             if x["st"] in ("none", "zombie"):
                 srcs.append("-")
                 continue
+            if x.get("old") and ctx["st"] != "none":
+                # a module of a released context while the thread already has a fresh one: the count queries are refused
+                srcs.append(".".join(["-1"] * 9))
+                continue
             ss = setof(x["src"])
             counts = [len(setof(x["subs"]))] + [sum(1 for q in ss if q["k"] == k) for k in KIND_ORDER]
             srcs.append(".".join(str(c) for c in counts + [sum(counts)]))
@@ -675,6 +679,7 @@ CORE_CFGS = {
     "life": (["A", "B"], {"VP_HOOKS": "A:esx,B:x", "VP_CAP": "2"}),
     "ctx": (["A", "B"], {"VP_HOOKS": "A:x,B:e", "VP_CAP": "2"}),
     "ctx3c": (["A", "B", "C"], {"VP_HOOKS": "B:x", "VP_CAP": "2", "VP_NAMES": "m0,m296,m330"}),
+    "ctxn": (["A", "B"], {"VP_HOOKS": "A:x", "VP_FLAGS": "A:R,B:-", "VP_CAP": "2"}),
     "ctxc": (["A", "B"], {"VP_HOOKS": "A:x,B:e", "VP_CAP": "2", "VP_NAMES": "db,fs"}),
     "lifec": (["A", "B"], {"VP_HOOKS": "A:esx,B:x", "VP_CAP": "2", "VP_NAMES": "db,fs"}),
     "ctxp": (["A", "B"], {"VP_HOOKS": "A:x,B:e", "VP_CAP": "2", "VP_CTXPERSIST": "1"}),
@@ -774,7 +779,7 @@ def c01(prop, tier, seed):
 
 @check("C07")
 def c07(prop, tier, seed):
-    return core_check(prop, tier, seed, ["ctx", "ctxp", "ctxc", "ctx3c"], ["ctx", "ctxp", "ctxc", "ctx3c", "life", "lifec"],
+    return core_check(prop, tier, seed, ["ctx", "ctxp", "ctxn", "ctxc", "ctx3c"], ["ctx", "ctxp", "ctxn", "ctxc", "ctx3c", "life", "lifec"],
                       "Focus: context register/deregister/finalize/loop from top level and from callbacks, persistent and not.", sim_cfgs=["mixb"])
 
 
